@@ -1,13 +1,18 @@
 package main
 
 import (
+	"fmt"
+
 	"verif/mc/explore"
 	"verif/mc/monitor"
 	"verif/mc/sim"
 )
 
 func safetyMonitors() []monitor.Monitor {
-	return []monitor.Monitor{&monitor.Apply{}, &monitor.Leader{}, &monitor.Commit{}, &monitor.LogMatch{}, &monitor.TermVote{}}
+	a := &monitor.Apply{}
+	return []monitor.Monitor{a, &monitor.Leader{}, &monitor.Commit{}, &monitor.LogMatch{}, &monitor.TermVote{},
+		&monitor.Durable{A: a}, &monitor.Linear{A: a},
+		&monitor.Reads{A: a, Kind: "read", Prop: "C05"}, &monitor.Reads{A: a, Kind: "lease", Prop: "C17"}}
 }
 
 var suites = map[string]*explore.Suite{}
@@ -16,21 +21,68 @@ func reg(s *explore.Suite) *explore.Suite {
 	if s.Monitors == nil {
 		s.Monitors = safetyMonitors
 	}
+	if _, dup := suites[s.Name]; dup {
+		panic("duplicate suite " + s.Name)
+	}
 	suites[s.Name] = s
 	return s
 }
 
 func lookupSuite(name string) *explore.Suite { return suites[name] }
 
+// Seeds: scripted event prefixes that drive the real cluster into regions the
+// budgets cannot reach from boot (DESIGN 2.4).
+var (
+	// S-split (3 voters): n0 and n1 are both campaigning for term 3, n2 has the
+	// shorter log and has heard nothing of terms 1-2; every vote request is
+	// still in flight.
+	seedSplit = sim.MustParse(
+		"timeout n1", "rt 1>0:RV#0 a=2", "rt 1>0:RV#1", "rt 1>0:AE#0",
+		"timeout n0", "rt 0>2:RV#0 a=2", "rt 1>0:AE#1", "timeout n0", "timeout n1",
+		"cut n0 a=1", // the two candidates cannot hear each other
+		"drop 1>2:RV#0", "drop 1>2:RV#1", "drop 1>2:AE#0", "drop 1>2:AE#1", "drop 0>2:RV#1", // stale requests
+	)
+	// S-leader (3 voters): n0 leads term 1, its no-op is committed everywhere.
+	seedLeader3 = sim.MustParse(
+		"timeout n0", "rt 0>1:RV#0 a=2", "rt 0>2:RV#0 a=2", "rt 0>1:RV#1", "rt 0>2:RV#1",
+		"rt 0>1:AE#0", "rt 0>2:AE#0", "rt 0>1:AE#1", "rt 0>2:AE#1",
+	)
+)
+
 func init() {
-	for d := 0; d <= 4; d++ {
-		reg(&explore.Suite{Name: "dv3-" + string(rune('0'+d)), Cfg: sim.Config{Voters: 3},
-			Budget: sim.Budget{Timeouts: 3, Elapses: 3, Beats: 2, Writes: 2, Reorders: -1, Splits: 2, Deviations: d}})
+	reg(&explore.Suite{Name: "free3", Cfg: sim.Config{Voters: 3},
+		Budget: sim.Budget{Timeouts: 9, Elapses: 9, Beats: 9, Writes: 9, Reorders: -1, Splits: 9, Deviations: -1}})
+	reg(&explore.Suite{Name: "free3h", Cfg: sim.Config{Voters: 3, StoreHook: true},
+		Budget: sim.Budget{Timeouts: 9, Elapses: 9, Beats: 9, Writes: 9, Reorders: -1, Splits: 9, Crashes: 9, Arms: 9, Restarts: 9, Deviations: -1}})
+	reg(&explore.Suite{Name: "free5", Cfg: sim.Config{Voters: 5},
+		Budget: sim.Budget{Timeouts: 9, Elapses: 9, Beats: 9, Writes: 9, Reorders: -1, Splits: 9, Deviations: -1}})
+
+	// Generic families: <kind><voters>-d<deviations>
+	for n := 1; n <= 5; n++ {
+		for d := 0; d <= 5; d++ {
+			// elections + writes, no crashes
+			reg(&explore.Suite{Name: fmt.Sprintf("rep%d-d%d", n, d), Cfg: sim.Config{Voters: n},
+				Budget: sim.Budget{Timeouts: 3, Elapses: 3, Beats: 2, Writes: 2, Reorders: -1, Splits: 2, Deviations: d}})
+			// elections only
+			reg(&explore.Suite{Name: fmt.Sprintf("elect%d-d%d", n, d), Cfg: sim.Config{Voters: n},
+				Budget: sim.Budget{Timeouts: 4, Elapses: 4, Beats: 1, Reorders: -1, Splits: 2, Drops: 1, Deviations: d}})
+			// crashes at quiescent points and at storage boundaries, restarts
+			reg(&explore.Suite{Name: fmt.Sprintf("crash%d-d%d", n, d), Cfg: sim.Config{Voters: n, StoreHook: true},
+				Budget: sim.Budget{Timeouts: 3, Elapses: 3, Beats: 1, Writes: 2, Reorders: -1, Splits: 1, Crashes: 1, Arms: 1, Restarts: 2, Deviations: d}})
+			// faults of the network: drops, duplicates, late replies
+			reg(&explore.Suite{Name: fmt.Sprintf("net%d-d%d", n, d), Cfg: sim.Config{Voters: n},
+				Budget: sim.Budget{Timeouts: 2, Elapses: 2, Beats: 2, Writes: 2, Reorders: -1, Splits: 3, Drops: 1, DropReplies: 1, Dups: 2, Deviations: d}})
+		}
 	}
-	reg(&explore.Suite{Name: "dev3", Cfg: sim.Config{Voters: 3},
-		Budget: sim.Budget{Timeouts: 2, Elapses: 2, Beats: 1, Writes: 1, Reorders: 0, Splits: 1, Deviations: -1}})
-	reg(&explore.Suite{Name: "dev3b", Cfg: sim.Config{Voters: 3},
-		Budget: sim.Budget{Timeouts: 3, Elapses: 3, Beats: 2, Writes: 2, Reorders: 1, Splits: 1, Deviations: -1}})
-	reg(&explore.Suite{Name: "dev2", Cfg: sim.Config{Voters: 2},
-		Budget: sim.Budget{Timeouts: 3, Elapses: 3, Beats: 2, Writes: 2, Reorders: 1, Splits: 2, Crashes: 1, Restarts: 1, Deviations: -1}})
+	for d := 0; d <= 5; d++ {
+		reg(&explore.Suite{Name: fmt.Sprintf("split3-d%d", d), Cfg: sim.Config{Voters: 3}, Seed: seedSplit,
+			Budget: sim.Budget{Timeouts: 2, Elapses: 2, Beats: 1, Reorders: -1, Splits: 1, Deviations: d}})
+		reg(&explore.Suite{Name: fmt.Sprintf("lead3-d%d", d), Cfg: sim.Config{Voters: 3, StoreHook: true}, Seed: seedLeader3,
+			Budget: sim.Budget{Timeouts: 2, Elapses: 2, Beats: 1, Writes: 2, Reorders: -1, Splits: 2, Crashes: 2, Arms: 1, Restarts: 2, Deviations: d}})
+	}
+	// small unbounded spaces (no deviation bound): every order within the budgets
+	reg(&explore.Suite{Name: "all2", Cfg: sim.Config{Voters: 2},
+		Budget: sim.Budget{Timeouts: 3, Elapses: 3, Beats: 1, Writes: 1, Reorders: -1, Splits: 1, Deviations: -1}})
+	reg(&explore.Suite{Name: "all1", Cfg: sim.Config{Voters: 1, StoreHook: true},
+		Budget: sim.Budget{Timeouts: 3, Elapses: 1, Beats: 2, Writes: 3, Reorders: -1, Crashes: 2, Arms: 2, Restarts: 2, Deviations: -1}})
 }
